@@ -343,6 +343,18 @@ F14LPats == { Cat(<<Grp(Dot), BRef(1)>>), Cat(<<Look(Cat(<<BRef(1), Grp(Dot)>>),
 F14L == With(F14LPats, Flags(TRUE, FALSE, FALSE, FALSE, FALSE))
 
 (***************************************************************************)
+(* F20: patterns for the Searcher contract: empty matches at every         *)
+(* position, at multi-byte characters and at both ends; adjacent matches;  *)
+(* matches that end where an empty one begins.                             *)
+(***************************************************************************)
+F20Pats == { Empty, Star(A), Opt(A), Plus(A), A, Bol, Eol, Wb(FALSE), Wb(TRUE), Look(A, FALSE, FALSE), Look(A, TRUE, FALSE),
+             Alt(<<A, Empty>>), Alt(<<Empty, A>>), Star(Chr(cEacute)), Chr(cEacute), Dot, Star(Dot), LazyStar(Dot), Cat(<<A, B>>),
+             Alt(<<Cat(<<A, B>>), A>>), Rep(Dot, 2, 2, TRUE), Opt(Chr(cGrin)), Cat(<<Look(B, FALSE, TRUE), Opt(A)>>), Star(Esc("w")),
+             Grp(Opt(A)), Cat(<<Opt(A), Opt(B)>>), Cls(TRUE, <<IC(ca)>>), Star(Cls(TRUE, <<IC(ca)>>)), Cat(<<Eol>>), Alt(<<B, Eol>>) }
+F20 == With(F20Pats, NoFlags) \cup With({Star(A), Opt(Chr(cGrin)), Dot, Empty, Wb(FALSE)}, UFlags)
+F20Hay == [alpha |-> {ca, cb, cEacute, cGrin}, maxlen |-> IF Thorough THEN 4 ELSE 3]
+
+(***************************************************************************)
 (* Registry                                                                *)
 (***************************************************************************)
 HaysOf(spec) == StringsUpTo(spec.alpha, spec.maxlen)
@@ -363,6 +375,7 @@ FamilyCases(name) ==
     [] name = "F9" -> F9
     [] name = "F1b" -> AttachHays(F1b, F1bHay)
     [] name = "F13" -> AttachHays(F13, F13Hay)
+    [] name = "F20" -> AttachHays(F20, F20Hay)
     [] name = "F14" -> AttachHays(F14, F14Hay)
     [] name = "F14L" -> AttachHays(F14L, F14Hay)
     [] name = "FC1" -> AttachHaysSp(FC1, FCHay)
